@@ -3,7 +3,7 @@ from __future__ import annotations
 
 from . import engine as E
 from . import symnp as np
-from .pdcore import (C_ADD, C_AND, C_DIV, C_EQ, C_FLOORDIV, C_GE, C_GT, C_LE, C_LT, C_MOD, C_MUL, C_NE, C_OR,
+from .pdcore import (INT_BITS, wrap_int, C_ADD, C_AND, C_DIV, C_EQ, C_FLOORDIV, C_GE, C_GT, C_LE, C_LT, C_MOD, C_MUL, C_NE, C_OR,
                      C_SUB, NAN, DType, Index, StrAccessor, _tobool, all_concrete, default_index, hashable_key,
                      infer_dtype, is_na, norm_dtype, same_label, sort_positions, truth)
 
@@ -210,10 +210,10 @@ class Series:
         tn = norm_dtype(t)
         out = []
         for v in self._vals:
-            if tn == "int64":
+            if tn == "int64" or tn in INT_BITS:
                 if is_na(v):
                     raise ValueError("Cannot convert non-finite values (NA or inf) to integer")
-                out.append(E.sint(v) if not isinstance(v, str) else int(v))
+                out.append(wrap_int(E.sint(v) if not isinstance(v, str) else int(v), tn))
             elif tn in ("Int64", "Int32", "Int16"):
                 out.append(v if is_na(v) else E.sint(v))
             elif tn == "float64":
@@ -226,7 +226,7 @@ class Series:
                 out.append(v if is_na(v) else str(v))
             else:
                 out.append(v)
-        keep = tn if tn in _STICKY else (tn if not out else None)
+        keep = tn if (tn in _STICKY or tn in INT_BITS) else (tn if not out else None)
         return self._new(out, dtype=keep)
 
     def infer_objects(self, copy=None):
